@@ -241,7 +241,7 @@ class World(WsWorld):
 
     def chatter(self):
         if self.e.p._st == 3 and not self.peer_sent_close:
-            self.peer_send_now(encode_frame(2, b"chat", mask=self.mask()))
+            self.peer_send_now(encode_frame(2, self.run.ch.pick((b"chat", b"", b"c" * 200), "chat-payload"), mask=self.mask()))
             self.note_traffic()
 
     def note_traffic(self):
@@ -398,7 +398,11 @@ class World(WsWorld):
             self.void_reaction(self.now())
             return
         if self.e.p._st in (3, 2):
-            self.peer_send_now(encode_frame(1, b"data", mask=self.mask()))
+            # (any complete data frame is traffic - also an empty one, the cheapest heartbeat a peer can send)
+            payload = self.run.ch.pick((b"data", b"", b"d" * 130), "data-payload", (2, 2, 1))
+            if not payload:
+                self.run.probe("empty-data-frame-as-traffic")
+            self.peer_send_now(encode_frame(1, payload, mask=self.mask()))
             self.note_traffic()
 
     # --- step loop ----------------------------------------------------------------------------------------------------
